@@ -203,6 +203,28 @@ def shard_strings(desc, rec):
             for pre in ("", "ab"):
                 check_write(rec, w, pre + bad, "non-cp1252")
         check_write(rec, w, "a\x00b", "embedded-NUL")
+    # every code point of the Basic Multilingual Plane that Windows-1252 cannot encode, alone and after a letter (so
+    # that a combining mark could compose with it), plus canonically / compatibly decomposed forms of every encodable
+    # character: none may be accepted, whatever normalisation, folding or transliteration would make of it
+    import unicodedata
+    enc = set(chars)
+    bmp_bad = [chr(c) for c in range(1, 0x10000) if chr(c) not in enc]
+    for ch in bmp_bad:
+        check_write(rec, 32, ch, "bmp-unencodable")
+        check_write(rec, 32, "e" + ch, "bmp-unencodable-after-letter")
+    marks = [ch for ch in bmp_bad if unicodedata.combining(ch)]
+    for base in "aAcCnNoOuUyYsSzZiI":
+        for m in marks[:120]:
+            check_write(rec, 32, base + m, "letter+combining-mark")
+    for ch in chars:
+        for form in ("NFD", "NFKD"):
+            dcm = unicodedata.normalize(form, ch)
+            if dcm != ch and encodable(dcm) is None:
+                check_write(rec, 32, dcm, "decomposed-cp1252-char")
+                check_write(rec, 256, "x" + dcm + "y", "decomposed-cp1252-char")
+    for c in (0x10000, 0x1F600, 0x1D400, 0x2F800, 0xE0001, 0x10FFFF):
+        check_write(rec, 32, chr(c), "astral")
+    rec.exhaustive["every BMP code point not encodable in Windows-1252, alone and after a letter (width 32)"] = True
     rec.exhaustive["every cp1252 character at first/middle/last position, lengths 0..w+3, widths 1,2,3,4,32,256"] = True
     # random strings
     for i in range(desc["n"]):
@@ -296,8 +318,60 @@ def through_blocks(rec, rng):
             rec.violation("C13", "entry:over-long-comment-non-ValueError", f"{type(err).__name__}", case)
 
 
+def through_tdf(rec, rng):
+    """comments of table entries written through add_block / replace_block / setters of a real file and read back
+    after reopening: identical for every valid string, the empty one included"""
+    import os
+    from basictdf import Tdf
+    from .container import small_block_spec, GETTER
+    d = env.scratch_dir()
+    path = str(d / f"c13_{os.getpid()}.tdf")
+    valid = ["", "x", " ", "k" * 254, "é" * 255, "€uro ÿ", "tab\there", " lead", "trail ", "Generated by basicTDF"]
+    for kind in ("data3D", "events", "platCal"):
+        for c1 in valid:
+            for how2, c2 in [("replace", c) for c in valid[:6]] + [("replace", None), ("set", None)]:
+                if how2 == "set" and kind not in GETTER:
+                    continue
+                if os.path.exists(path):
+                    os.unlink(path)
+                case = {"driver": "strings", "through": "tdf-comment", "kind": kind, "first": c1, "how": how2, "second": c2}
+                rec.case(case, True)
+                rec.count("c13:through-tdf")
+                b1 = lib.build(small_block_spec(rng, kind, 0), {})
+                b2 = lib.build(small_block_spec(rng, kind, 1), {})
+                bt = lib.BLOCK_TYPE[kind]
+
+                def stored():
+                    with Tdf(path) as t_:
+                        return next(e.comment for e in t_.entries if e.type == bt)
+                try:
+                    Tdf.new(path)
+                    with Tdf(path).allow_write() as t:
+                        t.add_block(b1, c1)
+                    got1 = stored()
+                    with Tdf(path).allow_write() as t:
+                        if how2 == "replace":
+                            t.replace_block(b2, c2) if c2 is not None else t.replace_block(b2)
+                        else:
+                            setattr(t, GETTER[kind], b2)
+                    got2 = stored()
+                except Exception as e:
+                    rec.violation("C13", "tdf:valid-comment-refused", f"{type(e).__name__}: {e}", case, exc=e)
+                    continue
+                rec.count("oracle:C13.comment-roundtrip-through-file")
+                if got1 != c1:
+                    rec.violation("C13", "tdf:comment-roundtrip", f"add_block(comment={c1[:30]!r}) reads back {got1[:30]!r}", case)
+                want2 = c2 if c2 is not None else c1
+                if got2 != want2:
+                    rec.violation("C13", "tdf:comment-roundtrip",
+                                  f"{how2}(comment={None if c2 is None else c2[:30]!r}) after {c1[:30]!r} reads back {got2[:30]!r}", case)
+    if os.path.exists(path):
+        os.unlink(path)
+
+
 def run_shard(desc, rec):
     shard_strings(desc, rec)
+    through_tdf(rec, random.Random(desc["seed"] * 7 + 1))
 
 
 def replay(case, rec):
@@ -307,5 +381,7 @@ def replay(case, rec):
         check_write(rec, case["width"], case["s"], "replay")
     elif "bytes" in case:
         check_read(rec, case["width"], bytes.fromhex(case["bytes"]), rng)
+    elif case.get("through") == "tdf-comment":
+        through_tdf(rec, rng)
     else:
         through_blocks(rec, rng)
